@@ -34,7 +34,7 @@ def gen(rng, tier, dist):
     n = 1500 if tier == "quick" else 20000
     out = []
     for c in range(n):
-        opts = {"p_soft": 0.3 if rng.random() < 0.3 else 0.0}
+        opts = {"p_soft": 0.3 if rng.random() < 0.3 else 0.0, "p_rdep": 0.2}
         app, ref = one_app(rng, tier, dist, opts)
         tree, flat, apro = app.tree(), sc.flat_text(ref.flat), sc.apro_text(app, ref.flat, ref.dirs)
         r = rng.random()
